@@ -10,6 +10,7 @@ from vlib import geom
 from vlib.geom import AXES, sym_grid, ref_map
 
 PROPERTY = "C01"
+TECHNIQUE = 'concolic ATen-level symbolic execution of the real Grid/Cube code + z3 (QF_NRA/LIA, integer sizes symbolic) verdict per obligation; cvc5 cross-check in thorough; the torch.arange element count (a float computation) by exhaustive concrete enumeration of n in [1, 4096]'
 EXPLANATION = (
     "Bounded symbolic execution + SMT. The real Grid/Cube/linalg code is executed on tensors whose spacing, center, rotation "
     "(rational parametrisation of SO(2)/SO(3) times concrete signed permutations), integer sizes and points are solver variables; "
